@@ -9,6 +9,7 @@ package serverinterceptors
 
 import (
 	"bufio"
+	"bytes"
 	"context"
 	"encoding/json"
 	"errors"
@@ -157,10 +158,28 @@ type c02WObs struct {
 }
 
 func c02Num(v any) int64 {
-	if x, ok := v.(float64); ok {
+	switch x := v.(type) {
+	case json.Number:
+		n, err := x.Int64()
+		if err != nil {
+			panic("verif c02: not an int64: " + x.String())
+		}
+		return n
+	case float64:
+		if x != math.Trunc(x) || math.Abs(x) >= 1<<53 {
+			panic("verif c02: number decoded through float64 is not exact")
+		}
 		return int64(x)
 	}
-	return 0
+	panic("verif c02: not a number")
+}
+
+// clock values go up to ~3e16 ns: beyond 2^53, so numbers inside the [][]any operations must NOT be
+// decoded through float64 (json.Unmarshal's default) - they would be rounded to multiples of 4 ns.
+func c02Decode(data []byte, v any) error {
+	d := json.NewDecoder(bytes.NewReader(data))
+	d.UseNumber()
+	return d.Decode(v)
 }
 
 func c02Dyadic(v float64) (int64, int) {
@@ -321,7 +340,7 @@ func TestVerifC02Rpc(t *testing.T) {
 		t.Fatal(err)
 	}
 	var cases []c02RpcCase
-	if err := json.Unmarshal(data, &cases); err != nil {
+	if err := c02Decode(data, &cases); err != nil {
 		t.Fatal(err)
 	}
 	f, err := os.Create(os.Getenv("VERIF_OUT"))
